@@ -113,12 +113,24 @@ func runProfile(cfg runCfg, prof string) error {
 		envs = append(envs, env)
 		w.preamble += env.preamble()
 	}
+	var envReal *e2eEnv
+	if prof == "c16" {
+		// the same federation behind a genuine net/http Transport: pooled keep-alive connections and request replay are real
+		var err error
+		if envReal, err = newEnv(fixtures[0], gwOpts{maxRequests: 50, realHTTP: true}); err != nil {
+			return err
+		}
+	}
 	for i := 0; i < cfg.n; i++ {
 		// every case has its own PRNG stream: case <prof>-<seed>-<i> is reproducible on its own
 		r = rand.New(rand.NewSource(cfg.seed*1000003 + int64(i)*7919 + int64(len(prof))))
 		env := envs[[]int{0, 0, 0, 1, 2, 2}[r.Intn(6)]]
 		if prof == "c16" {
 			env = envs[0]
+			if r.Intn(3) == 0 {
+				env = envReal
+				sum.Features["real_http_transport"]++
+			}
 		}
 		name := fmt.Sprintf("%s-%d-%d", prof, cfg.seed, i)
 		if os.Getenv("VH_DEBUG") != "" {
@@ -231,6 +243,22 @@ func runProfile(cfg runCfg, prof string) error {
 					for j := 0; j < n; j++ {
 						t := targets[r.Intn(len(targets))]
 						faults = append(faults, faultSpec{Svc: t[0], Target: t[1], Kind: faultKinds[r.Intn(len(faultKinds))]})
+					}
+				}
+			}
+			if env == envReal && len(targets) > 0 {
+				if r.Intn(2) == 0 { // the connection carrying a root request dies after the request was read
+					for _, t := range targets {
+						if t[1] == "root" {
+							faults = []faultSpec{{Svc: t[0], Target: "root", Kind: "transport"}}
+							opts.failing = nil
+							break
+						}
+					}
+				}
+				for j := range faults { // a deadline cannot be injected from the server side of a real connection
+					if faults[j].Kind == "timeout" {
+						faults[j].Kind = "transport"
 					}
 				}
 			}
